@@ -22,38 +22,39 @@ Proof.
   destruct Hin as [<-|Hin]; [eexists; exact Ha|apply IH; assumption].
 Qed.
 
-Definition tok_readable (t : tok) : Prop :=
-  match fst t with NUMBER => num_readable (snd t) | TO | WORD => False | _ => True end.
+(* the numeric fragment: literals, percentages, parentheses and the arithmetic operators (no units, casts, calls, facts) *)
+Fixpoint numeric_operand (x : operand) : Prop :=
+  match x with Num _ | Pct _ _ _ => True | Paren _ _ _ e _ => numeric_expr e | _ => False end
+with numeric_expr (e : ParseChains.expr) : Prop := match e with Chain x r => numeric_operand x /\ numeric_tail r end
+with numeric_tail (r : tail) : Prop :=
+  match r with TNil => True | TCons _ _ _ _ x r' => numeric_operand x /\ numeric_tail r' | TTo _ _ _ _ _ => False end.
+
 Lemma numbers_readable :
-  (forall x, (forall t, In t (toks_operand x) -> tok_readable t) -> readable_operand x) /\
-  (forall e, (forall t, In t (toks_expr e) -> tok_readable t) -> readable_expr e) /\
-  (forall r, (forall t, In t (toks_tail r) -> tok_readable t) -> readable_tail r) /\
+  (forall x, numeric_operand x -> (forall t, In (NUMBER, t) (toks_operand x) -> num_readable t) -> readable_operand x) /\
+  (forall e, numeric_expr e -> (forall t, In (NUMBER, t) (toks_expr e) -> num_readable t) -> readable_expr e) /\
+  (forall r, numeric_tail r -> (forall t, In (NUMBER, t) (toks_tail r) -> num_readable t) -> readable_tail r) /\
   (forall a : args, True) /\ (forall m : more, True).
 Proof.
-  apply syntax_mut; try (intros; exact I).
-  - intros t H. apply (H (NUMBER, t)). left. reflexivity.
-  - intros t w pt H. apply (H (NUMBER, t)). left. reflexivity.
-  - intros po pc w1 e IHe w2 H. cbn [readable_operand]. apply IHe. intros t Ht. apply H. cbn [toks_operand]. right.
+  apply syntax_mut; try (intros; exact I); try (cbn [numeric_operand numeric_tail]; intros; contradiction).
+  - intros t _ H. apply H. left. reflexivity.
+  - intros t w pt _ H. apply H. left. reflexivity.
+  - intros po pc w1 e IHe w2 Hn H. cbn [readable_operand]. apply IHe; [exact Hn|]. intros t Ht. apply H. cbn [toks_operand]. right.
     apply in_or_app. right. apply in_or_app. left. exact Ht.
-  - intros name po pc a _ H. apply (H (WORD, name)). left. reflexivity.
-  - intros first ms H. apply (H (WORD, first)). left. reflexivity.
-  - intros x IHx r IHr H. cbn [readable_expr]. split; [apply IHx|apply IHr]; intros t Ht; apply H; cbn [toks_expr]; apply in_or_app; tauto.
-  - intros wb a txt wa x IHx r IHr H. cbn [readable_tail]. split; [apply IHx|apply IHr]; intros t Ht; apply H; cbn [toks_tail];
+  - intros x IHx r IHr [Hnx Hnr] H. cbn [readable_expr]. split; [apply IHx|apply IHr]; try assumption; intros t Ht; apply H; cbn [toks_expr]; apply in_or_app; tauto.
+  - intros wb a txt wa x IHx r IHr [Hnx Hnr] H. cbn [readable_tail]. split; [apply IHx|apply IHr]; try assumption; intros t Ht; apply H; cbn [toks_tail];
       apply in_or_app; right; right; apply in_or_app; right; apply in_or_app; tauto.
-  - intros wb txt wa u r IHr H. cbn [readable_tail]. apply (H (TO, txt)). cbn [toks_tail]. apply in_or_app. right. left. reflexivity.
 Qed.
 
 Theorem query_expression : forall debug describe facts (w0 : blanks) (e : ParseChains.expr) (w1 : blanks),
-  lexable (wst w0 ++ toks_expr e ++ wst w1) ->
+  numeric_expr e -> lexable (wst w0 ++ toks_expr e ++ wst w1) ->
   exists r, query debug describe facts (text_of (wst w0 ++ toks_expr e ++ wst w1)) = ([r], []) /\
             agrees r (denote (sem_expr e)).
 Proof.
-  intros debug describe facts w0 e w1 Hl.
+  intros debug describe facts w0 e w1 Hn Hl.
   assert (Hr : readable_expr e).
-  { apply (proj1 (proj2 numbers_readable)). intros t Ht.
-    destruct (lexable_in _ t Hl) as [rest Hok]; [apply in_or_app; right; apply in_or_app; left; exact Ht|].
-    unfold tok_ok in Hok. unfold tok_readable. destruct t as [k tx]. cbn [fst snd] in *.
-    destruct k; try exact I; try contradiction. destruct Hok as (l & W & -> & _). apply wf_readable. exact W. }
+  { apply (proj1 (proj2 numbers_readable)); [exact Hn|]. intros t Ht.
+    destruct (lexable_in _ (NUMBER, t) Hl) as [rest Hok]; [apply in_or_app; right; apply in_or_app; left; exact Ht|].
+    unfold tok_ok in Hok. cbn [fst snd] in Hok. destruct Hok as (l & W & -> & _). apply wf_readable. exact W. }
   destruct (expression_value debug facts describe w0 e w1 Hr) as (f & r & Hp & He & Ha).
   exists r. split; [|exact Ha]. unfold query. rewrite (tokens_lexable _ Hl), Hp. exact He.
 Qed.
@@ -76,7 +77,7 @@ Proof.
     - exists (lit_of_digit 2). split; [unfold lit_of_digit; wf_lit|repeat split; reflexivity].
     - exists (lit_of_digit 3). split; [unfold lit_of_digit; wf_lit|repeat split; reflexivity].
     - exists {| lneg := None; lint := [4%Z]; lfrac := Some [5%Z]; lexp := None |}. split; [wf_lit|repeat split; reflexivity]. }
-  destruct (query_expression debug describe facts [[32%N]] example_expr [] Hl) as (r & Hq & Ha).
+  destruct (query_expression debug describe facts [[32%N]] example_expr [] ltac:(cbn; tauto) Hl) as (r & Hq & Ha).
   assert (Eo : exists q, denote (sem_expr example_expr) = Some q /\ (q == 31 # 40)%Q).
   { vm_compute. eexists. split; reflexivity. }
   destruct Eo as (q & Eq & Hq40). rewrite Eq in Ha. destruct Ha as (v & -> & Hv).
@@ -89,6 +90,7 @@ Fixpoint skel_operand (x : operand) : operand :=
   match x with
   | Num t => Num t
   | Pct t _ pt => Pct t [] pt
+  | NumU t w u => NumU t w u
   | Paren po pc _ e _ => Paren po pc [] (skel_expr e) []
   | Call name po pc a => Call name po pc a
   | Fact first ms => Fact first ms
@@ -118,6 +120,7 @@ Proof.
   apply syntax_mut; try (intros; exact I).
   - reflexivity.
   - reflexivity.
+  - reflexivity.
   - intros po pc w1 e IHe w2. cbn [skel_operand sem_operand]. exact IHe.
   - reflexivity.
   - reflexivity.
@@ -132,15 +135,15 @@ Proof.
 Qed.
 
 Theorem blanks_do_not_matter : forall debug describe facts (w0 w1 w0' w1' : blanks) (e e' : ParseChains.expr),
-  skel_expr e = skel_expr e' ->
+  numeric_expr e -> numeric_expr e' -> skel_expr e = skel_expr e' ->
   lexable (wst w0 ++ toks_expr e ++ wst w1) -> lexable (wst w0' ++ toks_expr e' ++ wst w1') ->
   exists r r', query debug describe facts (text_of (wst w0 ++ toks_expr e ++ wst w1)) = ([r], []) /\
                query debug describe facts (text_of (wst w0' ++ toks_expr e' ++ wst w1')) = ([r'], []) /\
                agrees r (denote (sem_expr e)) /\ agrees r' (denote (sem_expr e)).
 Proof.
-  intros debug describe facts w0 w1 w0' w1' e e' Hs Hl Hl'.
-  destruct (query_expression debug describe facts w0 e w1 Hl) as (r & Hq & Ha).
-  destruct (query_expression debug describe facts w0' e' w1' Hl') as (r' & Hq' & Ha').
+  intros debug describe facts w0 w1 w0' w1' e e' Hn Hn' Hs Hl Hl'.
+  destruct (query_expression debug describe facts w0 e w1 Hn Hl) as (r & Hq & Ha).
+  destruct (query_expression debug describe facts w0' e' w1' Hn' Hl') as (r' & Hq' & Ha').
   exists r, r'. repeat split; try assumption.
   rewrite <- (proj1 (proj2 skel_sem) e), Hs, (proj1 (proj2 skel_sem) e'). exact Ha'.
 Qed.
